@@ -231,7 +231,11 @@ class SigmaString(SigmaType):
                 if e_len > start:
                     # else:
                     if end < e_len:  # end lies within this string part
-                        return self.__class__(e[start : cast(int, end)])
+                        # The characters of a string part are plain characters: don't parse them again
+                        # (an escaped wildcard would turn into a wildcard).
+                        within = self.__class__()
+                        within.s = [e[start : cast(int, end)]]
+                        return within
                     else:  # end lies behind the current string part
                         result.append(e[start:])
                         # end -= start
